@@ -79,6 +79,22 @@ ChangesSound(prev, cur, ch) ==
 (* C11 / C19: what the public API shows - cells, pens, wrap marks of the view,  *)
 (* cursor, visibility, cursor-key mode.                                         *)
 ObsEq(a, b) == Pub(a) = Pub(b)
+(* C11, stronger: "identical screens and cursors after ANY further input" - every  *)
+(* hidden component that some continuation can expose must have been re-created:   *)
+(* pen, charsets, tab stops, modes, pending wrap, margins, the parser, and both     *)
+(* saved contexts (positions compared as they would be clamped on activation).      *)
+ClampCtx(c, t) == [c EXCEPT !.col = Min2(@, t.cols - 1), !.row = Min2(@, t.rows - 1)]
+ParserCore(p) ==     \* what of the parser a continuation can expose: stale parameters in other states are dead
+  [state |-> p.state,
+   params |-> IF p.state \in {"CsiParam", "DcsParam"} THEN p.params ELSE <<>>,
+   inter |-> IF p.state \in {"EscapeIntermediate", "CsiIntermediate", "CsiParam", "DcsIntermediate", "DcsParam"} THEN p.inter ELSE -1]
+Hidden(vt) ==
+  LET t == vt.t IN
+  [pen |-> t.pen, g0 |-> t.g0, g1 |-> t.g1, gl |-> t.gl, tabs |-> t.tabs, insert |-> t.insert, origin |-> t.origin,
+   autowrap |-> t.autowrap, newline |-> t.newline, pw |-> t.pw, top |-> t.top, bottom |-> t.bottom, alt |-> t.alt,
+   saved |-> ClampCtx(t.saved, t), asaved |-> ClampCtx(t.asaved, t), p |-> ParserCore(vt.p),
+   parked |-> IF t.alt /\ t.other.cols = t.cols /\ t.other.rows = t.rows THEN View(t.other) ELSE <<>>]
+HiddenEq(a, b) == Hidden(a) = Hidden(b)
 
 (* The two dump() defects the property text keeps as findings, identified by  *)
 (* the dump-time state: C11-a = origin mode with the cursor outside the scroll  *)
